@@ -53,6 +53,45 @@ fn check_readback(bytes: &[u8], kvs: &[Kv], full: bool) -> Result<(), String> {
     if m.len() != n || m.is_empty() != (n == 0) {
         return Err("Map::len/is_empty".into());
     }
+    // usage variants of the readers: two streams of one object advanced
+    // alternately, a stream dropped half way and another started, lookups
+    // between two next() calls, clones and conversions
+    {
+        let mut s1 = f.stream();
+        let mut s2 = f.stream();
+        let (mut g1, mut g2): (Vec<Kv>, Vec<Kv>) = (vec![], vec![]);
+        loop {
+            let a = s1.next().map(|(k, v)| (k.to_vec(), v.value()));
+            if let Some((k, _)) = &a {
+                let _ = f.get(k);
+            }
+            let b = s2.next().map(|(k, v)| (k.to_vec(), v.value()));
+            let done = a.is_none() && b.is_none();
+            g1.extend(a);
+            g2.extend(b);
+            if done {
+                break;
+            }
+        }
+        if g1 != kvs || g2 != kvs {
+            return Err(format!("two streams of one Fst advanced alternately gave {} and {}", kvs_str(&g1), kvs_str(&g2)));
+        }
+        let mut half = f.stream();
+        for _ in 0..n / 2 {
+            half.next();
+        }
+        drop(half);
+        if f.stream().into_byte_vec() != kvs {
+            return Err("a stream started after another one was dropped half way differs".into());
+        }
+        let fc = f.clone();
+        let mc = Map::from(fc.clone()).clone();
+        let sc = Set::from(fc);
+        let via_asref: &Fst<&[u8]> = mc.as_ref();
+        if via_asref.stream().into_byte_vec() != kvs || sc.stream().into_bytes() != keys || mc.clone().into_fst().stream().into_byte_vec() != kvs || sc.as_fst().len() != n {
+            return Err("clones / From<Fst> / AsRef<Fst> / into_fst readers differ".into());
+        }
+    }
     // readers that were pointed at these bytes through map_data (from an empty / another FST)
     let m0: Map<Vec<u8>> = Map::default();
     let m0 = m0.map_data(|_| bytes).map_err(|e| format!("Map::default().map_data failed: {:?}", e))?;
